@@ -22,6 +22,41 @@ VALUES = [("summary", "a"), ("summary", "b"), ("SUMMARY", "a"), ("description", 
           ("location", "L"), ("url", "http://x"), ("sequence", 1)]
 
 
+def twin_values():
+    """per value class two different values of the same shape (same list length, same type, same parameters): replacing
+    one by the other is a single-value perturbation that only the value's own equality can see"""
+    import zoneinfo
+    import icalendar
+    B = zoneinfo.ZoneInfo("Europe/Berlin")
+    d = datetime
+    return [
+        ("rdate", [d(2020, 1, 2, 10), d(2020, 1, 3, 10)], [d(2020, 1, 2, 10), d(2020, 1, 4, 10)]),
+        ("exdate", [date(2020, 1, 2)], [date(2020, 1, 3)]),
+        ("exdate", [d(2020, 1, 2, 10, tzinfo=B), d(2020, 2, 2, 10, tzinfo=B)], [d(2020, 1, 2, 10, tzinfo=B), d(2020, 2, 2, 11, tzinfo=B)]),
+        ("tzoffsetfrom", timedelta(hours=1), timedelta(hours=2)),
+        ("tzoffsetto", timedelta(hours=-5), timedelta(hours=-5, minutes=-30)),
+        ("geo", (1.0, 2.0), (1.0, 2.5)),
+        ("attach", icalendar.vBinary("hello"), icalendar.vBinary("hellp")),
+        ("freebusy", icalendar.vPeriod((d(2020, 1, 1, 8), d(2020, 1, 1, 9))), icalendar.vPeriod((d(2020, 1, 1, 8), d(2020, 1, 1, 10)))),
+        ("freebusy", icalendar.vPeriod((d(2020, 1, 1, 8), timedelta(hours=1))), icalendar.vPeriod((d(2020, 1, 1, 8), timedelta(hours=2)))),
+        ("rrule", {"freq": "daily", "count": 3}, {"freq": "daily", "count": 4}),
+        ("rrule", {"freq": "weekly", "byday": ["MO", "TU"]}, {"freq": "weekly", "byday": ["MO", "WE"]}),
+        ("trigger", timedelta(minutes=-15), timedelta(minutes=-20)),
+        ("dtstart", d(2020, 1, 2, 10, tzinfo=B), d(2020, 1, 2, 11, tzinfo=B)),
+        ("dtend", d(2020, 1, 2, 10, tzinfo=zoneinfo.ZoneInfo("UTC")), d(2020, 1, 2, 11, tzinfo=zoneinfo.ZoneInfo("UTC"))),
+        ("due", date(2020, 1, 2), date(2020, 1, 3)),
+        ("dtstart", d(2020, 1, 2, 10), d(2020, 1, 2, 10, 0, 1)),
+        ("duration", timedelta(hours=1), timedelta(hours=1, seconds=1)),
+        ("categories", ["a", "b"], ["a", "c"]),
+        ("percent-complete", 10, 20),
+        ("completed", d(2020, 1, 2, 10, tzinfo=zoneinfo.ZoneInfo("UTC")), d(2021, 1, 2, 10, tzinfo=zoneinfo.ZoneInfo("UTC"))),
+        ("attendee", "mailto:a@x", "mailto:b@x"),
+        ("url", "http://x", "http://y"),
+        ("x-custom", "v", "w"),
+        ("recurrence-id", d(2020, 1, 2, 10), d(2020, 1, 3, 10)),
+    ]
+
+
 def new_comp(kind):
     import icalendar
     cls = getattr(icalendar, kind, None)
@@ -35,7 +70,10 @@ def new_comp(kind):
 def gen_tree(rng, depth, maxdepth):
     c = new_comp(rng.choice(KINDS) if depth else rng.choice(["Calendar", "Calendar", "Event", "X-FOO"]))
     for _ in range(rng.randrange(0, 4)):
-        n, v = rng.choice(VALUES)
+        if rng.random() < 0.3:
+            n, v, _w = rng.choice(twin_values())
+        else:
+            n, v = rng.choice(VALUES)
         c.add(n, v)
     if depth < maxdepth:
         for _ in range(rng.choice((0, 1, 1, 2, 3)) if depth < 2 else rng.choice((0, 0, 1))):
@@ -72,7 +110,30 @@ def perturb(c, rng):
     d = copy.deepcopy(c)
     nodes = py_preorder(d)
     node = rng.choice(nodes)
-    op = rng.randrange(5)
+    op = rng.randrange(7)
+    if op >= 5:
+        # one value replaced by another of the same class and shape
+        cands = []
+        for nd in nodes:
+            for n, v, w in twin_values():
+                if n.upper() in nd and not isinstance(nd[n.upper()], list):
+                    cands.append((nd, n, v, w))
+        if not cands:
+            return None
+        nd, n, v, w = rng.choice(cands)
+        import icalendar
+        a, b = icalendar.cal.Component(), icalendar.cal.Component()
+        a.add(n, v)
+        b.add(n, w)
+        key = n.upper()
+        old = nd[key]
+        if old == a[key] and type(old) is type(a[key]):
+            nd[key] = b[key]
+        elif old == b[key] and type(old) is type(b[key]):
+            nd[key] = a[key]
+        else:
+            return None
+        return d, "value replaced by another of the same class (%s: %s)" % (key, type(old).__name__)
     if op == 0 and len(node.keys()):
         k = rng.choice(list(node.keys()))
         v = node[k]
@@ -112,6 +173,68 @@ def ids_obs(c, table):
             row.append([type(v).__name__, [], i])
         props.append([k, 1 if isinstance(e, list) else 0, row])
     return [c.name or "", props, [ids_obs(s, table) for s in c.subcomponents], []]
+
+
+def reparse_diff(a, b):
+    """for two trees that serialise identically: the recorded causes for which a value of [a] is not == its counterpart
+    in [b]; None if some difference has no recorded cause (or the shapes differ)"""
+    from icalendar.prop import vRecur, vBinary
+    causes = []
+    if sorted(a.keys()) != sorted(b.keys()) or len(a.subcomponents) != len(b.subcomponents):
+        return None
+    for k in a.keys():
+        va, vb = a[k], b[k]
+        la, lb = (va if isinstance(va, list) else [va]), (vb if isinstance(vb, list) else [vb])
+        if len(la) != len(lb):
+            return None
+        for x, y in zip(la, lb):
+            if safe_eq(x, y) == 1 and safe_eq(y, x) == 1:
+                continue
+            same_text = getattr(x, "to_ical", lambda: 1)() == getattr(y, "to_ical", lambda: 2)()
+            if isinstance(x, vRecur) and isinstance(y, vRecur) and same_text:
+                causes.append("C20-F4")       # stored scalars / lower-case names against the parser's upper-case lists
+            elif isinstance(x, vBinary) and not isinstance(y, vBinary) and same_text:
+                causes.append("C20-F5")       # ATTACH;VALUE=BINARY is read back as a URI value
+            elif ambiguous_other_zone(x, y) and same_text:
+                causes.append("C20-F7")       # PEP 495: a time in a repeated interval never equals one in another zone object
+            else:
+                return None
+    for sa, sb in zip(a.subcomponents, b.subcomponents):
+        c = reparse_diff(sa, sb)
+        if c is None:
+            return None
+        causes += c
+    return causes
+
+
+def ambiguous_other_zone(x, y):
+    """two date-time values with the same wall clock in distinct zone objects, the wall clock being one the zone repeats
+    (its UTC offset depends on fold)"""
+    a, b = getattr(x, "dt", None), getattr(y, "dt", None)
+    if not (isinstance(a, datetime) and isinstance(b, datetime)) or a.tzinfo is None or b.tzinfo is None:
+        return False
+    if a.tzinfo is b.tzinfo or a.replace(tzinfo=None) != b.replace(tzinfo=None):
+        return False
+    return a.replace(fold=0).utcoffset() != a.replace(fold=1).utcoffset()
+
+
+def custom_pytz_zone(c):
+    """some value of the tree carries a pytz zone object that pytz itself cannot look up by name (built from a VTIMEZONE)"""
+    import pytz
+    for comp in py_preorder(c):
+        for k in comp.keys():
+            e = comp[k]
+            for v in (e if isinstance(e, list) else [e]):
+                for dt in [getattr(v, "dt", None)] + list(getattr(v, "dts", []) or []):
+                    dt = getattr(dt, "dt", dt)
+                    tz = getattr(dt, "tzinfo", None)
+                    zone = getattr(tz, "zone", None)
+                    if zone is not None:
+                        try:
+                            pytz.timezone(zone)
+                        except Exception:  # noqa: BLE001
+                            return True
+    return False
 
 
 def safe_eq(a, b):
@@ -250,13 +373,58 @@ def run(ctx, res):
                 back = type(t).from_ical(s)
                 r1, r2 = safe_eq(t, back), safe_eq(back, t)
                 if not (r1 == 1 and r2 == 1 and T.impl_ser(back) == s):
-                    if "C20-F4" in known and T.impl_ser(back) == s:
-                        res.known("C20-F4", {"tree": s[:200], "t==back": r1, "back==t": r2}, known["C20-F4"]["summary"])
+                    causes = reparse_diff(t, back) if T.impl_ser(back) == s else None
+                    if causes and all(c in known for c in causes):
+                        for c in sorted(set(causes)):
+                            res.known(c, {"tree": s[:200], "t==back": r1, "back==t": r2}, known[c]["summary"])
                     else:
                         res.fail("C20: serialise-and-parse copy is not equal to the original or serialises differently", key,
-                                 observed=[r1, r2, T.impl_ser(back) == s])
+                                 observed=[r1, r2, T.impl_ser(back) == s, causes])
             except ValueError:
                 pass
+    # ---- copies of parsed calendars (values carry provider time zones, custom VTIMEZONEs, recurrence rules): deep copy,
+    # pickle and serialise-and-parse must give an equal tree that serialises identically and assigns the same UTC offsets
+    from icalendar.timezone import tzp
+    from . import c09 as C09
+    fx = [(n, dta) for n, dta in T.fixtures()]
+    if not ctx.big:
+        fx = [x for i, x in enumerate(fx) if i % 3 == ctx.seed % 3]
+    for provider in ("zoneinfo", "pytz"):
+        tzp.use(provider)
+        try:
+            for name, data in fx:
+                try:
+                    comps = icalendar.Calendar.from_ical(data, multiple=True)
+                except Exception:  # noqa: BLE001
+                    continue
+                for c in comps:
+                    ser = T.impl_ser(c)
+                    if not isinstance(ser, str):
+                        continue
+                    res.evaluations += 1
+                    res.dist("parsed corpus copies (%s)" % provider)
+                    base = C09.obs_with_offsets([c])
+                    for what, mk in (("deepcopy", copy.deepcopy), ("pickle", lambda x: pickle.loads(pickle.dumps(x)))):
+                        try:
+                            u = mk(c)
+                        except Exception as e:  # noqa: BLE001
+                            if (type(e).__name__ == "UnknownTimeZoneError" and provider == "pytz" and "C20-F6" in known
+                                    and custom_pytz_zone(c)):
+                                res.known("C20-F6", {"calendar": name, "copy": what}, known["C20-F6"]["summary"])
+                            else:
+                                res.fail("C20 %s of a parsed component raised %s" % (what, type(e).__name__), [name, provider])
+                            continue
+                        r1, r2 = safe_eq(c, u), safe_eq(u, c)
+                        same_ser = T.impl_ser(u) == ser
+                        same_obs = C09.obs_with_offsets([u]) == base
+                        causes = reparse_diff(c, u) if (same_ser and same_obs and not (r1 == 1 and r2 == 1)) else None
+                        if causes and all(x == "C20-F7" and x in known for x in causes):
+                            res.known("C20-F7", {"calendar": name, "copy": what, "provider": provider}, known["C20-F7"]["summary"])
+                        elif not (r1 == 1 and r2 == 1 and same_ser and same_obs):
+                            res.fail("C20: %s of a parsed component is not equal to the original, serialises differently or "
+                                     "assigns other UTC offsets" % what, [name, provider], observed=[r1, r2, same_ser, same_obs])
+        finally:
+            tzp.use_default()
     outs = M.batch(reqs) if M else None
     if outs is not None:
         for (kind, inp, impl), m in zip(post, outs):
